@@ -114,50 +114,67 @@ func (h H) onlyWriters(rule, fieldSpec string, allowed ...string) []core.Site {
 	return sites
 }
 
-// gate: every path from the entry of target's function to target crosses an
-// edge implying `want`, and nothing the condition reads is written in between.
+// gate: every path from the entry of target's function to target crosses a
+// *stable* edge implying `want` (the condition's inputs are fresh at the branch
+// and nothing it reads is written between the branch and the target).
 func (h H) gate(rule, construct string, target ssa.Instruction, want core.Atom) bool {
-	fi := h.P.Info(target.Parent())
-	r := fi.MustCrossAtom(target, want)
-	if !r.OK {
-		h.C.Check(rule, construct, false, h.pos(target), fmt.Sprintf("a path reaches this site without passing the guard [%s]: %s", want, core.Short(r.Witness, 400)))
-		return false
-	}
-	if ok, why := fi.StableBetween(target, want); !ok {
-		h.C.Check(rule, construct, false, h.pos(target), "guard ["+want.String()+"] is not stable: "+why)
-		return false
-	}
-	h.C.Check(rule, construct, true, h.pos(target), "guard ["+want.String()+"] on every path")
-	return true
+	return h.gateAny(rule, construct, target, want)
 }
 
 // gateAny: like gate but any of the alternative atoms may serve as the guard on a path.
 func (h H) gateAny(rule, construct string, target ssa.Instruction, wants ...core.Atom) bool {
 	fi := h.P.Info(target.Parent())
-	r := fi.MustCross(target, func(a core.Atom) bool {
+	pass := func(a core.Atom) bool {
 		for _, w := range wants {
 			if a.Implies(w) {
 				return true
 			}
 		}
 		return false
-	})
+	}
 	var ws []string
 	for _, w := range wants {
 		ws = append(ws, w.String())
 	}
-	if !r.OK {
-		h.C.Check(rule, construct, false, h.pos(target), fmt.Sprintf("a path reaches this site without passing any of the guards [%s]: %s", strings.Join(ws, " | "), core.Short(r.Witness, 400)))
+	var unstable []string
+	r := fi.MustCrossEdges(target, pass, func(e core.Edge) bool {
+		ok, why := fi.EdgeStable(e, target)
+		if !ok {
+			unstable = append(unstable, why)
+		}
+		return ok
+	})
+	if r.OK {
+		h.C.Check(rule, construct, true, h.pos(target), "guard ["+strings.Join(ws, " | ")+"] on every path")
+		return true
+	}
+	loose := fi.MustCross(target, pass)
+	if loose.OK && len(unstable) > 0 {
+		h.C.Check(rule, construct, false, h.pos(target), "guard ["+strings.Join(ws, " | ")+"] is tested but not stable: "+strings.Join(unstable, "; "))
 		return false
 	}
-	for _, w := range wants {
-		if ok, why := fi.StableBetween(target, w); !ok {
-			h.C.Check(rule, construct, false, h.pos(target), "guard ["+w.String()+"] is not stable: "+why)
-			return false
+	h.C.Check(rule, construct, false, h.pos(target), fmt.Sprintf("a path reaches this site without passing the guard [%s]: %s", strings.Join(ws, " | "), core.Short(r.Witness, 400)))
+	return false
+}
+
+// gateLoose: the guard is on every path; stability of what it read is not required
+// (used where the guard validates an immutable request).
+func (h H) gateLoose(rule, construct string, target ssa.Instruction, want core.Atom) bool {
+	fi := h.P.Info(target.Parent())
+	r := fi.MustCrossAtom(target, want)
+	return h.C.Check(rule, construct, r.OK, h.pos(target), fmt.Sprintf("a path reaches this site without passing the guard [%s]: %s", want, core.Short(r.Witness, 400)))
+}
+
+// rangeVar: the local that receives the value of `for _, n := range <expr>`.
+func (h H) rangeVar(fn *ssa.Function, rangeExpr string) string {
+	fi := h.P.Info(fn)
+	out := "each(" + rangeExpr + ").val"
+	core.Instrs(fn, func(in ssa.Instruction) {
+		if st, ok := in.(*ssa.Store); ok && fi.Sym(st.Val).String() == "each("+rangeExpr+").val" {
+			out = fi.Sym(st.Addr).String()
 		}
-	}
-	h.C.Check(rule, construct, true, h.pos(target), "guards ["+strings.Join(ws, " | ")+"] on every path")
-	return true
+	})
+	return out
 }
 
 // argStr renders the i-th argument (including receiver for methods) of a call.
